@@ -21,7 +21,7 @@ def build_native(u, work):
     cdir = os.path.join(work, u['name'] + '_crate')
     if os.path.exists(cdir):
         shutil.rmtree(cdir)
-    shutil.copytree(os.path.join(u['dir'], 'crate'), cdir)
+    shutil.copytree(os.path.normpath(os.path.join(u['dir'], u.get('crate_dir', 'crate'))), cdir)
     for root, _, files in os.walk(cdir):
         for fn in files:
             p = os.path.join(root, fn)
@@ -31,7 +31,7 @@ def build_native(u, work):
     lock = os.path.join(REPO, 'Cargo.lock')
     if os.path.exists(lock):
         shutil.copy(lock, os.path.join(cdir, 'Cargo.lock'))
-    tdir = os.path.join(CACHE, u['name'])
+    tdir = os.path.join(CACHE, 'shared')      # one cache for all native units: the real crates are built once
     os.makedirs(tdir, exist_ok=True)
     env = dict(os.environ, CARGO_NET_OFFLINE='true', CARGO_TARGET_DIR=tdir)
     t0 = time.time()
